@@ -313,7 +313,7 @@ theorem rejects_uneven (xa : XA α) (ax : Axis) (hax : ax ∈ geo xa) (j : Nat) 
 /-- **… and what it does not see.**  The threshold has an ABSOLUTE term: coordinates whose
 spacings are all at most `5e-9` (any mesh at the nanometre scale and below) pass the spacing
 test no matter how uneven they are.  The sentence "unevenly spaced coordinates are rejected"
-is therefore false of the code at small length scales (finding D25; witness below). -/
+is therefore false of the code at small length scales (finding D82; witness below). -/
 theorem spacing_blind_below_atol (v : List Rat)
     (h : ∀ j, j + 1 < v.length → |v.getD (j + 1) 0 - v.getD j 0| ≤ 5/1000000000) : evenB v = true :=
   evenB_of_small v h
@@ -354,7 +354,7 @@ example : ∃ g, fromXarray (.dataArray exHand) = .ok g ∧ g.mesh.region.pmin =
   · rw [h3]; decide
   · rw [h4]; decide
 
-/-- D25 witness: coordinates 0, 1 nm, 5 nm are accepted and give a 3-cell mesh of 2.5 nm cells
+/-- D82 witness: coordinates 0, 1 nm, 5 nm are accepted and give a 3-cell mesh of 2.5 nm cells
 from -1.25 nm to 6.25 nm; the same coordinates in metres are rejected -/
 example : (fromXarray (.dataArray exNm)).toOption.map (fun g => (g.mesh.region.pmin, g.mesh.region.pmax, g.mesh.n))
     = some ([-5/4000000000], [25/4000000000], [3]) := by decide +kernel
